@@ -642,14 +642,14 @@ PROPS["C05"] = {
     "module": "Rl.Props.C05",
     "targets": [{"name": "ed05", "gen": "ed05", "header_tokens": 9}],
     "shards": {"quick": 8, "thorough": 16},
-    "rule": 'ed05: key scripts on a pty, emacs (5/6) and vi, in which four fifths of the emacs keys come from the undo mix: typed characters (alphanumeric, blank, punctuation, multi-byte), the Undo probe C-_ at arbitrary points (also with the numeric argument M-2), Backspace / C-d / C-h, kills (C-w C-k C-u M-d M-DEL), yank, C-t / M-t / M-u / M-l / M-c, motions, quoted insert, a bracketed paste, an aborted incremental search (C-r text C-g); the rest are the general emacs / vi key mixes (history, completion with a scripted completer, searches); vi (1/4 of the reads): insert sessions with the Undo probe C-_ inside them, u, counted u, ., operators, x X D p P. Oracle: oracleC05 over the Event::Any callbacks (every post-undo text occurred earlier in the same read; one undo does not jump past the state before the most recent word-sized-or-larger edit; repeated undo reaches the empty line; an aborted search or completion leaves the following undo as if it had not been started), in vi mode oracleC05Vi (own log of the texts of the read; u / C-_ also inside an open insert session; a session opened by a command is one group when it is left) plus the C17 sanity oracle. Known findings D38, D39 are matched by their spec verdicts. Corpus: corpus/C05.txt.',
+    "rule": 'ed05: key scripts on a pty, emacs (5/6) and vi, in which four fifths of the emacs keys come from the undo mix: typed characters (alphanumeric, blank, punctuation, multi-byte), the Undo probe C-_ at arbitrary points (also with the numeric argument M-2), Backspace / C-d / C-h, kills (C-w C-k C-u M-d M-DEL), yank, C-t / M-t / M-u / M-l / M-c, motions, quoted insert, a bracketed paste, an aborted incremental search (C-r text C-g); the rest are the general emacs / vi key mixes (history, completion with a scripted completer, searches); vi (1/4 of the reads): insert sessions with the Undo probe C-_ inside them, u, counted u, ., operators, x X D p P. Oracle: oracleC05 over the Event::Any callbacks (every post-undo text occurred earlier in the same read; one undo does not jump past the state before the most recent word-sized-or-larger edit; repeated undo reaches the empty line; an aborted search or completion leaves the following undo as if it had not been started), in vi mode oracleC05Vi (own log of the texts of the read; u / C-_ also inside an open insert session; a session opened by a command is one group when it is left) plus the C17 sanity oracle. Corpus: corpus/C05.txt.',
     "trivial_impl_regex": r"=> .*",
     "exhaustive": {"quick": False, "thorough": False},
     "trusted_base": ["pty harness (quiescence detection through /proc, one key press at a time) and diff",
                      "scripted helpers are functions of the text (same table on both sides)",
                      "the theorems are about the Changeset model (Rl/Undo.lean) and the three line-buffer primitives Change::undo calls; that the editor model keeps `replayLog undos = line` across whole commands (every LineBuffer call reports exactly what it did: property C03) is checked by the differential run and the oracle, not proved"],
     "unproved": ['C05_abort_transparent_statement'],
-    "level_text": "Lean theorems, for every stack and every notification sequence (no bound), about the undo-log model: the stack is an exact log (replaying it oldest-first reproduces the line after any listener notifications, all three merge rules included: C05_log_replay, C05_log_markers); Begin/End stay balanced under begin / notifications / truncate and end closes all levels (C05_balanced); begin ... truncate(mark) restores stack and level exactly (C05_truncate_restores: the D10 repair); one pass of the undo loop pops exactly one unit - one change or one complete End..Begin group - for every repeat count (C05_undo_unit, also for the model's own loop); Change::undo inverts a recorded change on the line buffer, proved from the LineBuffer definitions (C05_undo_inverts); under the log invariant Undo with any count never panics and leaves the line at the replay of the remaining older log, and an emptied stack means the start text (C05_undo_past_text, C05_undo_to_empty). The editor model is diffed against the real editor on a pty and oracleC05 runs over the implementation's callbacks. Partial: the lifting of the log invariant and of abort transparency to whole editor commands (Ed states) is stated, not proved; D22 (a typed alphanumeric merges into a preceding yank/paste Insert) is recorded as a witness theorem and deliberately not judged by the oracle; in vi mode the oracle found D38 (an Undo that empties an open insert session leaves an unmatched End marker: a later Undo runs to the bottom of the stack) and D39 (a change replayed by . leaves its undo group open), both known findings.",
+    "level_text": "Lean theorems, for every stack and every notification sequence (no bound), about the undo-log model: the stack is an exact log (replaying it oldest-first reproduces the line after any listener notifications, all three merge rules included: C05_log_replay, C05_log_markers); Begin/End stay balanced under begin / notifications / truncate and end closes all levels (C05_balanced); begin ... truncate(mark) restores stack and level exactly (C05_truncate_restores: the D10 repair); one pass of the undo loop pops exactly one unit - one change or one complete End..Begin group - for every repeat count (C05_undo_unit, also for the model's own loop); Change::undo inverts a recorded change on the line buffer, proved from the LineBuffer definitions (C05_undo_inverts); under the log invariant Undo with any count never panics and leaves the line at the replay of the remaining older log, and an emptied stack means the start text (C05_undo_past_text, C05_undo_to_empty). The editor model is diffed against the real editor on a pty and oracleC05 runs over the implementation's callbacks. Partial: the lifting of the log invariant and of abort transparency to whole editor commands (Ed states) is stated, not proved; D22 (a typed alphanumeric merges into a preceding yank/paste Insert) is recorded as a witness theorem and deliberately not judged by the oracle; Undo keeps the markers balanced (C05_undo_balanced: level = number of unmatched Begin markers after an Undo inside an open group too; D38 repaired) and a change replayed by . closes its own group (D39 repaired).",
     "level_note": 'Trusted: Lean kernel; pty harness; the log-level theorems take the notification stream as given (its faithfulness is C03).',
     "assumptions": ["keyseq_timeout = None (default)"],
 }
@@ -658,16 +658,16 @@ PROPS["C06"] = {
     "module": "Rl.Props.C06",
     "targets": [{"name": "ed06", "gen": "ed06", "header_tokens": 9}],
     "shards": {"quick": 8, "thorough": 16},
-    "rule": 'ed06: key scripts on a pty, emacs (3/4) and vi, in which three quarters of the keys come from the kill mix: runs of 1-4 kill commands (C-k, C-u, C-w, M-d, M-DEL, a fifth of them with numeric arguments M-1..3 and negative arguments M--) followed by C-y and 0-3 M-y, single-character deletions (C-d, Backspace, C-h, Delete), stray C-y / M-y, motions, C-l, typed text; counted yanks M-2 / M-3 C-y followed by M-y; vi (1/4 of the reads): runs of 2-3 kills (d + motion / d + f t F T + char / dd / D / C-w C-u C-k / c + motion) sometimes with one character delete, copy (y + motion) or motion inside, then P or p (also counted) and u; C-w C-u C-y in insert mode. Oracle: oracleC06 over the Event::Any callbacks (kill then yank re-inserts exactly the removed text; a run of kills yanks back as one text in left-to-right order; character deletions neither enter nor extend the kill; a counted yank inserts n copies and yank-pop replaces exactly the yanked text by the previous kill, cyclically; yank-pop without a yank does nothing; a kill / yank / yank-pop that ends an incremental search or a completion is judged like any other), in vi mode oracleC06Vi (operator groups seen through their operator key and the text removed; a d / c group is followed both as a kill and as a character deletion, a put must agree with one reading) plus the C17 sanity oracle. Known findings D33, D16, D37 are matched by their spec verdicts. Corpus: corpus/C06.txt.',
+    "rule": 'ed06: key scripts on a pty, emacs (3/4) and vi, in which three quarters of the keys come from the kill mix: runs of 1-4 kill commands (C-k, C-u, C-w, M-d, M-DEL, a fifth of them with numeric arguments M-1..3 and negative arguments M--) followed by C-y and 0-3 M-y, single-character deletions (C-d, Backspace, C-h, Delete), stray C-y / M-y, motions, C-l, typed text; counted yanks M-2 / M-3 C-y followed by M-y; vi (1/4 of the reads): runs of 2-3 kills (d + motion / d + f t F T + char / dd / D / C-w C-u C-k / c + motion) sometimes with one character delete, copy (y + motion) or motion inside, then P or p (also counted) and u; C-w C-u C-y in insert mode. Oracle: oracleC06 over the Event::Any callbacks (kill then yank re-inserts exactly the removed text; a run of kills yanks back as one text in left-to-right order; character deletions neither enter nor extend the kill; a counted yank inserts n copies and yank-pop replaces exactly the yanked text by the previous kill, cyclically; yank-pop without a yank does nothing; a kill / yank / yank-pop that ends an incremental search or a completion is judged like any other), in vi mode oracleC06Vi (operator groups seen through their operator key and the text removed; a d / c group is followed both as a kill and as a character deletion, a put must agree with one reading) plus the C17 sanity oracle. Corpus: corpus/C06.txt.',
     "trivial_impl_regex": r"=> .*",
     "exhaustive": {"quick": False, "thorough": False},
     "trusted_base": ["pty harness (quiescence detection through /proc, one key press at a time) and diff",
                      "scripted helpers are functions of the text (same table on both sides)",
                      "the theorems are about the KillRing model and the listener fan-out; which editor command issues which ring operation (lbKill / ringYank / ringYankPop / shouldResetKillRing in Rl/Editor.lean) is tied to the code by the differential run",
                      "slots.capacity() is modelled as the requested size (60): Vec::with_capacity may reserve more"],
-    "unproved": ['C06_yank_pop_most_recent_statement'],
-    "level_text": "Lean theorems for ALL reachable kill rings (induction over any sequence of ring operations, any capacity): the invariant (slots within capacity, index addresses a slot, last action = kill only with a non-empty ring) holds and kill / yank / yank-pop never hit slots[index] out of range (C06_ring_bounds, C06_no_panic); kill from a non-kill last action then yank returns exactly the killed text (C06_kill_yank, C06_kill_yank_reachable); any mixed run of forward and backward directional kills accumulates so that one yank returns slot with T0 = T1[..p] ++ slot ++ T1[p..] (C06_accumulate); deletions reported while not killing leave the ring unchanged, LineBuffer::kill sends no start_killing for the two character movements, and these commands reset the last action so the next kill opens a fresh slot (C06_char_delete, C06_char_kill_ring_unchanged); directly after a yank, j yank-pops replace the size just inserted by the slot one further back, cyclically through the stored slots and nothing else (C06_yank_pop, full cycle = number of slots). The editor model is diffed against the real editor on a pty and oracleC06 runs over the implementation's callbacks. Partial: 'cycling through the MOST RECENT kills' fails after a kill that follows a yank-pop (D33, known finding; C06_D33_counterexample proves it of the model), so that clause is stated (C06_yank_pop_most_recent_statement), not proved; kills across reads are covered by the model carrying the ring (initEd) and checked only through the raw / printer harnesses that run several reads. D15 (yank with a count recorded one copy's length) is repaired: C06_yank_count_pop. In vi mode the oracle found D16 (a whole-line kill joins a run as one appended block) and D37 (a kill directly after y + motion is joined to the copied text), both known findings.",
-    "level_note": 'Trusted: Lean kernel; pty harness; D33 is reported as KNOWN-FINDING, not repaired (needs a separate top index).',
+    "unproved": [],
+    "level_text": "Lean theorems for ALL reachable kill rings (induction over any sequence of ring operations, any capacity): the invariant (slots within capacity, index addresses a slot, last action = kill only with a non-empty ring) holds and kill / yank / yank-pop never hit slots[index] out of range (C06_ring_bounds, C06_no_panic); kill from a non-kill last action then yank returns exactly the killed text (C06_kill_yank, C06_kill_yank_reachable); any mixed run of forward and backward directional kills accumulates so that one yank returns slot with T0 = T1[..p] ++ slot ++ T1[p..] (C06_accumulate); deletions reported while not killing leave the ring unchanged, LineBuffer::kill sends no start_killing for the two character movements, and these commands reset the last action so the next kill opens a fresh slot (C06_char_delete, C06_char_kill_ring_unchanged); directly after a yank, j yank-pops replace the size just inserted by the slot one further back, cyclically through the stored slots and nothing else (C06_yank_pop, full cycle = number of slots). The editor model is diffed against the real editor on a pty and oracleC06 runs over the implementation's callbacks. the model answers every yank and yank-pop like the reference ring of the property text for every ring size and command sequence, also after the ring has wrapped (C06_yank_pop_most_recent, by the simulation of Lemmas/KillRingSim.lean; D33 repaired); a whole-line / whole-buffer kill inside a kill sequence keeps the left-to-right order (C06_around_keeps_order; D16 repaired); a kill after a vi copy opens its own slot (C06_copy_kill_yank; D40 repaired); kills across reads are covered by the model carrying the ring (initEd) and checked only through the raw / printer harnesses that run several reads. D15 (yank with a count recorded one copy's length) is repaired: C06_yank_count_pop.",
+    "level_note": 'Trusted: Lean kernel; pty harness. D15, D16, D33, D40 are repaired (fix commits in known_findings.json, fixed).',
     "assumptions": ["keyseq_timeout = None (default)"],
 }
 
